@@ -298,8 +298,24 @@ pub fn generate(seed: u64, big: bool) -> Scenario {
             l.push_str(&gen::moves_uci(&ms).join(" "));
         }
         let _ = ps;
-        suffix.push(l);
+        suffix.push(l.clone());
         suffix.push(format!("go depth {}", if plies <= 4 { 6 } else { 5 }));
+        // in half of these the game goes on with three more deep searches on the same engine
+        // (no ucinewgame): whatever grows with the number of positions searched grows
+        if rng.chance(1, 2) {
+            let mut cur = ps.last().unwrap().clone();
+            let mut all = gen::moves_uci(&ms);
+            for _ in 0..3 {
+                let (more, qs) = gen::playout(&mut rng, &cur, 2, 0);
+                if more.len() < 2 || qs.last().unwrap().legal_moves().is_empty() {
+                    break;
+                }
+                all.extend(gen::moves_uci(&more));
+                cur = qs.last().unwrap().clone();
+                suffix.push(format!("position startpos moves {}", all.join(" ")));
+                suffix.push("go depth 5".to_string());
+            }
+        }
         return Scenario { prefix, suffix, key_seeds: vec![rng.next_u64(), rng.next_u64(), rng.next_u64()], forced, real_binary: false };
     }
     if let (Some((root, ms, last)), true) = (&last_game, rng.chance(1, 3)) {
@@ -464,7 +480,7 @@ pub fn run(ctx: &Ctx) -> i32 {
     });
     let ev = Evidence {
         level: "exploration",
-        rule: "One case = one script pair: an adversarial prefix (0-3 games, clock-limited searches interrupted at seeded reads, depth-limited searches, with/without ucinewgame, standard commands the engine ignores such as stop/ponderhit/setoption at seeded places; one game in four has a history with planted repetitions) and a depth-limited suffix (1-2 games, depth 1..4, sometimes a go before any position command, in one case of four the game of the prefix continued after ucinewgame with the same start and move list; one case in forty is a single depth 5-6 search of several hundred thousand nodes). Runs: prefix+ucinewgame+suffix under three key seeds (transcripts of info/bestmove lines minus time/nps must be identical; the whole transcript when the prefix has no clocked go, else the part after ucinewgame), and the suffix alone in a fresh process (must equal the part after ucinewgame). One case in eight is also run twice on the real binary (two real key draws) and compared with the simulation. Evaluations = simulated processes; all cases are non-trivial (each contains at least one search).".into(),
+        rule: "One case = one script pair: an adversarial prefix (0-3 games, clock-limited searches interrupted at seeded reads, depth-limited searches, with/without ucinewgame, standard commands the engine ignores such as stop/ponderhit/setoption at seeded places; one game in four has a history with planted repetitions) and a depth-limited suffix (1-2 games, depth 1..4, sometimes a go before any position command, in one case of four the game of the prefix continued after ucinewgame with the same start and move list; one case in forty is a depth 5-6 search of several hundred thousand nodes, half of them followed by three more depth-5 searches along the same game without ucinewgame). Runs: prefix+ucinewgame+suffix under three key seeds (transcripts of info/bestmove lines minus time/nps must be identical; the whole transcript when the prefix has no clocked go, else the part after ucinewgame), and the suffix alone in a fresh process (must equal the part after ucinewgame). One case in eight is also run twice on the real binary (two real key draws) and compared with the simulation. Evaluations = simulated processes; all cases are non-trivial (each contains at least one search).".into(),
         extra: {
             let mut m = serde_json::Map::new();
             m.insert("real_binary_available".into(), json!(real_bin.is_some()));
